@@ -451,18 +451,25 @@ def check(run, only_case=None):
     n_seq = 1200 if quick else 12000
     n_conc = 160 if quick else 1600
     maxsize, maxdepth = (16, 6) if quick else (40, 8)
-    t_end = time.time() + (75 if quick else 600)
+    budget = 80 if quick else 640      # seconds; a cap for loaded machines, normally not reached
+    t_seq_end = time.time() + budget * 0.4
+    cut = []
 
     # ---- 1a. single-thread trees
     for _ in range(n_seq):
-        if time.time() > t_end:
+        if time.time() > t_seq_end:
+            cut.append('single-thread phase')
             break
         chk.seq_case(gen_tree(rng, maxsize, maxdepth))
         if chk.stop:
             break
     # ---- 1b. concurrent runs
+    t_end = time.time() + budget * 0.6
     for j in range(n_conc):
-        if time.time() > t_end or chk.stop:
+        if chk.stop:
+            break
+        if time.time() > t_end:
+            cut.append('concurrent phase')
             break
         nthreads = rng.choice([1, 2, 2, 3, 4, 4, 6, 8, 8, 12, 16, 16])
         if rng.random() < 0.25:
@@ -479,6 +486,7 @@ def check(run, only_case=None):
     run.cov['sequential_runs'] = chk.n_seq
     run.cov['concurrent_runs'] = chk.n_conc
     run.cov['exhaustive'] = False
+    run.cov['phases_cut_short_by_time_cap'] = cut
     run.cov['failing_cases_seen_before_stopping'] = chk.n_failed
     run.cov['search'] = ('direct oracle on %d single-thread runs and %d concurrent runs (1..16 threads) of random call trees on the real '
                          'wrappers; failing trees are shrunk' % (chk.n_seq, chk.n_conc))
